@@ -51,6 +51,9 @@ var targets = []target{
 	{"block/pending_base.go", "pendingBase", "isEmpty"},
 	{"block/retriever.go", "Manager", "handlePotentialHeader"},
 	{"block/retriever.go", "Manager", "handlePotentialData"},
+	{"block/manager.go", "Manager", "IsDAIncluded"},
+	{"block/manager.go", "Manager", "SetRollkitHeightToDAHeight"},
+	{"block/da_includer.go", "Manager", "incrementDAIncludedHeight"},
 	{"types/da.go", "", "SubmitWithHelpers"},
 	{"types/da.go", "", "RetrieveWithHelpers"},
 }
@@ -86,7 +89,10 @@ func list(xs []string) string { return "[" + strings.Join(xs, "; ") + "]" }
 
 type tr struct {
 	imports map[string]bool // local names of imported packages in the current file
+	n       int
 }
+
+func (t *tr) fresh() int { t.n++; return t.n }
 
 func (t *tr) isPkg(e ast.Expr) (string, bool) {
 	id, ok := e.(*ast.Ident)
@@ -218,6 +224,9 @@ func (t *tr) expr(e ast.Expr) string {
 	case *ast.CallExpr:
 		switch f := x.Fun.(type) {
 		case *ast.Ident:
+			if f.Name == "make" && len(x.Args) >= 1 {
+				return "(ENew " + q("make "+text(x.Args[0])) + ")"
+			}
 			if f.Name == "new" && len(x.Args) == 1 {
 				ty := text(x.Args[0])
 				if i := strings.LastIndex(ty, "."); i >= 0 {
@@ -232,7 +241,7 @@ func (t *tr) expr(e ast.Expr) string {
 				if ownPkgs[p] {
 					name = f.Sel.Name
 				}
-				if name == "fmt.Errorf" || name == "errors.New" || name == "fmt.Sprintf" {
+				if name == "fmt.Errorf" || name == "errors.New" {
 					return "(ECall " + q(name) + " [])"
 				}
 				return "(ECall " + q(name) + " " + t.exprs(x.Args) + ")"
@@ -307,6 +316,16 @@ func (t *tr) stmt(s ast.Stmt) string {
 			if len(x.Rhs) == 1 {
 				return "(SAssign " + list(names) + " " + t.expr(x.Rhs[0]) + ")"
 			}
+			if len(x.Rhs) == len(names) {
+				// a, b := e1, e2: evaluate every right-hand side first, then assign (one block)
+				var pre, post []string
+				for i, r := range x.Rhs {
+					tmp := fmt.Sprintf("$p%d", t.fresh())
+					pre = append(pre, "(SAssign ["+q(tmp)+"] "+t.expr(r)+")")
+					post = append(post, "(SAssign ["+names[i]+"] (EVar "+q(tmp)+"))")
+				}
+				return "(SIf [] (EBool true) " + list(append(pre, post...)) + " [])"
+			}
 			return "(SUnknown " + q("parallel assignment "+text(x)) + ")"
 		}
 		if o := binop(x.Tok); o != "" && len(names) == 1 && len(x.Rhs) == 1 {
@@ -314,6 +333,30 @@ func (t *tr) stmt(s ast.Stmt) string {
 		}
 		return "(SUnknown " + q("assignment "+text(x)) + ")"
 	case *ast.IfStmt:
+		// `if seq, ok := m.sequencer.(MetricsRecorder); ok { ... }`: metrics only, no influence on any decision
+		if as, ok := x.Init.(*ast.AssignStmt); ok && len(as.Rhs) == 1 {
+			if ta, ok := as.Rhs[0].(*ast.TypeAssertExpr); ok && ta.Type != nil && strings.Contains(text(ta.Type), "Metrics") {
+				return "(SSkip " + q("metrics") + ")"
+			}
+		}
+		// a call with an effect in unconditional position of the condition (`if !x.CompareAndSwap(a, b)`) is
+		// evaluated first, into a temporary: expressions are pure in Model/GoLite.v
+		if c, neg := hoistable(x.Cond); c != nil && x.Init == nil {
+			tmp := fmt.Sprintf("$t%d", t.fresh())
+			cond := "(EVar " + q(tmp) + ")"
+			if neg {
+				cond = "(ENot " + cond + ")"
+			}
+			els := "[]"
+			switch e := x.Else.(type) {
+			case nil:
+			case *ast.BlockStmt:
+				els = t.block(e)
+			default:
+				els = "[SUnknown " + q("else "+text(e)) + "]"
+			}
+			return "(SIf [(SAssign [" + q(tmp) + "] " + t.expr(c) + ")] " + cond + " " + t.block(x.Body) + " " + els + ")"
+		}
 		init := "[]"
 		if x.Init != nil {
 			init = "[" + t.stmt(x.Init) + "]"
@@ -402,6 +445,22 @@ func (t *tr) stmt(s ast.Stmt) string {
 		return "(SIf [] (EBool true) " + t.block(x) + " [])"
 	}
 	return "(SUnknown " + q(fmt.Sprintf("%T %s", s, text(s))) + ")"
+}
+
+// effectful methods that occur in conditions
+var effectful = map[string]bool{"CompareAndSwap": true}
+
+func hoistable(e ast.Expr) (*ast.CallExpr, bool) {
+	neg := false
+	if u, ok := e.(*ast.UnaryExpr); ok && u.Op == token.NOT {
+		e, neg = u.X, true
+	}
+	if c, ok := e.(*ast.CallExpr); ok {
+		if s, ok := c.Fun.(*ast.SelectorExpr); ok && effectful[s.Sel.Name] {
+			return c, neg
+		}
+	}
+	return nil, false
 }
 
 func recvType(fd *ast.FuncDecl) string {
